@@ -130,9 +130,9 @@ static std::vector<Op> make_ops(int g) {
     scalar("EQUALS_2rec", S_GRID, "EQUALS", {rec(PORO, 0.31, BA), rec(PERMX, 70, -1)});
     scalar("ADD_PERMX_B", S_GRID, "ADD", {rec(PERMX, 7.5, BB)});
     scalar("MULTIPLY_PERMX_C", S_GRID, "MULTIPLY", {rec(PERMX, 2, BC)});
-    scalar("MULTIPLY_MULTX_A", S_GRID, "MULTIPLY", {rec(MULTX, 3, BA)});
+    scalar("MULTIPLY_MULTX_A", S_GRID, "MULTIPLY", {rec(MULTX, 3, BA)}, false);
     { Op o; o.name = "COPY_PERMX_PERMY_A"; o.sec = S_GRID; o.kind = K_COPY; o.kw = "COPY"; o.recs = {crec(PERMX, PERMY, BA)}; add(o); }
-    { Op o; o.name = "COPY_PORO_NTG_B"; o.sec = S_GRID; o.kind = K_COPY; o.kw = "COPY"; o.recs = {crec(PORO, NTG, BB)}; add(o); }
+    { Op o; o.name = "COPY_PORO_NTG_B"; o.sec = S_GRID; o.kind = K_COPY; o.kw = "COPY"; o.recs = {crec(PORO, NTG, BB)}; o.core = false; add(o); }
     scalar("MINVALUE_PERMX_E", S_GRID, "MINVALUE", {rec(PERMX, 125, BE)});
     scalar("MAXVALUE_PERMX_B", S_GRID, "MAXVALUE", {rec(PERMX, 105, BB)});
     { Op o; o.name = "OPERATE_MULTA_C"; o.cls = "OPERATE-MULTA"; o.sec = S_GRID; o.kind = K_OPERATE; o.recs = {orec(PERMY, BC, "MULTA", PERMX, 2, 30)}; add(o); }
@@ -182,7 +182,7 @@ static std::vector<Op> make_ops(int g) {
     scalar("MULTIPLY_MULTX_edit", S_EDIT, "MULTIPLY", {rec(MULTX, 5, -1)}, false);
     // ---------------- PROPS
     scalar("EQUALS_SWATINIT_A", S_PROPS, "EQUALS", {rec(SWATINIT, 0.4, BA)}, false);
-    scalar("ADD_SWATINIT", S_PROPS, "ADD", {rec(SWATINIT, 0.125, -1)}, false);
+    scalar("ADD_SWATINIT_A", S_PROPS, "ADD", {rec(SWATINIT, 0.125, BA)}, false);
     boxed("SWATINIT_inboxE", S_PROPS, SWATINIT, BE, seq(box_size(g, BE), 0.5, 0.03125), false);
     // ---------------- REGIONS
     assign("SATNUM_def", S_REGIONS, SATNUM, n == 8 ? std::vector<Ent>{{1, false, 2}, {1, true, 0}, {1, false, 3}, {2, false, 2}, {1, true, 0}, {2, false, 4}}
@@ -196,12 +196,12 @@ static std::vector<Op> make_ops(int g) {
     { Op o; o.name = "EQUALREG_SATNUM"; o.cls = "EQUALREG-int"; o.sec = S_REGIONS; o.kind = K_REGSCALAR; o.kw = "EQUALREG"; o.recs = {rrec(SATNUM, 3, 1, MULTNUM, false)}; o.core = false; add(o); }
     // ---------------- SOLUTION
     scalar("EQUALS_PRESSURE_C", S_SOLUTION, "EQUALS", {rec(PRESSURE, 250, BC)});
-    scalar("ADD_PRESSURE", S_SOLUTION, "ADD", {rec(PRESSURE, 5, -1)});
+    scalar("ADD_PRESSURE", S_SOLUTION, "ADD", {rec(PRESSURE, 5, -1)}, false);
     assign("PRESSURE_all", S_SOLUTION, PRESSURE, seq(n, 200, 1.5), false);
     { Op o; o.name = "EQUALREG_PRESSURE"; o.sec = S_SOLUTION; o.kind = K_REGSCALAR; o.kw = "EQUALREG"; o.recs = {rrec(PRESSURE, 300, 1, MULTNUM, true)}; o.core = false; add(o); }
     { Op o; o.name = "OPERATER_PRESSURE_FIP"; o.cls = "OPERATER-ADDX"; o.sec = S_SOLUTION; o.kind = K_OPERATER; Rec r = orec(PRESSURE, -1, "ADDX", PRESSURE, 10, 0); r.reg = 2; r.set = FIPNUM; o.recs = {r}; o.core = false; add(o); }
     // pruned alphabet for the depth-4 regime (PERMX-centred: undefined cells, all-cells storage, boxes, regions)
-    for (auto& o : v) for (const char* nm : {"PERMX_all", "PERMX_rep_def", "PERMX_n4", "BOX_A", "BOX_B", "ENDBOX", "EQUALS_PERMX", "EQUALS_2rec", "ADD_PERMX_B", "MULTIPLY_PERMX_C", "COPY_PERMX_PERMY_A", "MINVALUE_PERMX_E", "MAXVALUE_PERMX_B", "OPERATE_MULTA_C", "MULTNUM_all", "EQUALS_MULTNUM_D", "EQUALREG_PERMX_r1", "ADDREG_PERMX", "MULTIREG_PERMX", "COPYREG_PERMX_PERMY", "OPERATER_MULTA", "EQUALS_MULTX_edit_B", "SATNUM_def", "EQUALS_PRESSURE_C"}) if (o.name == nm) o.core4 = true;
+    for (auto& o : v) for (const char* nm : {"PERMX_all", "PERMX_rep_def", "PERMX_n4", "BOX_A", "BOX_B", "ENDBOX", "EQUALS_PERMX", "EQUALS_2rec", "ADD_PERMX_B", "MULTIPLY_PERMX_C", "COPY_PERMX_PERMY_A", "MINVALUE_PERMX_E", "OPERATE_MULTA_C", "MULTNUM_all", "EQUALS_MULTNUM_D", "EQUALREG_PERMX_r1", "ADDREG_PERMX", "COPYREG_PERMX_PERMY", "OPERATER_MULTA", "EQUALS_MULTX_edit_B", "SATNUM_def", "EQUALS_PRESSURE_C"}) if (o.name == nm) o.core4 = true;
     return v;
 }
 
@@ -405,7 +405,13 @@ struct Ref {
 };
 
 // ---------------------------------------------------------- library side ---
-struct LibArr { bool has = false, partial = false; std::vector<double> v, gv; std::vector<unsigned char> def, gdef; bool has_global = false; };      // partial: array exists but is not fully defined; def[c]: cell has a value      // v, gv: indexed by GLOBAL cell (active cells filled)
+struct LibArr {
+    bool has = false;             // has_double/has_int: array present and fully defined
+    bool partial = false;         // double array exists in the library but is not fully defined (seen through get_double_field_data)
+    bool fd = false, store = false;   // per-cell status known / array has all-cells ("global") storage
+    std::vector<double> v, gv, sv;    // by GLOBAL cell: get_*() values, get_global_*() values, all-cells storage values
+    std::vector<unsigned char> def, sdef;   // by GLOBAL cell: active-cell array / all-cells storage holds a value
+};
 struct LibRes { bool threw = false; std::string err; int nactive = -1; LibArr a[NARR]; };
 
 static Parser* g_parser;
@@ -449,17 +455,19 @@ static LibRes run_lib(int g, long mask, const std::vector<Op>& ops, const std::v
                 int ai = 0; for (int c = 0; c < n; ++c) if ((m >> c) & 1) { L.v[c] = d.at(ai++); L.gv[c] = gd[c]; }
             }
         }
-        // auxiliary observation: double arrays that are not fully defined are looked at cell by cell (values + has-value status)
+        // auxiliary observation: per-cell has-value status of the double arrays the program touches (also when not fully
+        // defined), and the all-cells storage of PERMX/PERMY that get_global_double() returns.
         for (int a = 0; a < MULTX_EDIT; ++a) {
-            LibArr& L = r.a[a]; if (L.has || meta[a].is_int || !want_partial[a]) continue;
+            LibArr& L = r.a[a]; if (meta[a].is_int || !want_partial[a]) continue;
             try {
                 const auto& fd = fp.get_double_field_data(meta[a].name, true);
                 if ((int)fd.data.size() != r.nactive) continue;
-                L.partial = true; L.v.assign(n, 0); L.def.assign(n, 0);
-                int ai = 0; for (int c = 0; c < n; ++c) if ((m >> c) & 1) { L.v[c] = fd.data[ai]; L.def[c] = value::has_value(fd.value_status[ai]); ++ai; }
+                L.fd = true; L.def.assign(n, 0);
+                if (!L.has) { L.partial = true; L.v.assign(n, 0); }
+                int ai = 0; for (int c = 0; c < n; ++c) if ((m >> c) & 1) { if (!L.has) L.v[c] = fd.data[ai]; L.def[c] = value::has_value(fd.value_status[ai]); ++ai; }
                 if (fd.global_data && fd.global_value_status && (int)fd.global_data->size() == n) {
-                    L.has_global = true; L.gv.assign(n, 0); L.gdef.assign(n, 0);
-                    for (int c = 0; c < n; ++c) { L.gv[c] = (*fd.global_data)[c]; L.gdef[c] = value::has_value((*fd.global_value_status)[c]); }
+                    L.store = true; L.sv.assign(n, 0); L.sdef.assign(n, 0);
+                    for (int c = 0; c < n; ++c) { L.sv[c] = (*fd.global_data)[c]; L.sdef[c] = value::has_value((*fd.global_value_status)[c]); }
                 }
             } catch (const std::exception&) {}
         }
@@ -497,6 +505,7 @@ static std::vector<Finding> judge(int g, long maskarg, const std::vector<Op>& op
             if (!ref.arr[a].exists && !(lib.a[a].has)) continue;
             std::printf("  %-9s ref:", meta[a].name); for (int c = 0; c < n; ++c) { if (ref.arr[a].s[c] == UNDEF) std::printf(" %s", ref.act(c) ? "undef" : "-"); else std::printf(" %.12g%s", ref.arr[a].v[c], ref.act(c) ? "" : "(i)"); }
             std::printf("\n  %-9s lib:", ""); if (!lib.a[a].has) std::printf(" (not available)"); else for (int c = 0; c < n; ++c) { if (ref.act(c)) std::printf(" %.12g|%.12g", lib.a[a].v[c], lib.a[a].gv[c]); else std::printf(" -"); }
+            if (lib.a[a].fd) { std::printf("\n  %-9s st :", ""); for (int c = 0; c < n; ++c) std::printf(" %s%s", ref.act(c) ? (lib.a[a].def[c] ? "val" : "unset") : "-", lib.a[a].store ? (lib.a[a].sdef[c] ? "/store:val" : "/store:unset") : ""); if (lib.a[a].partial) { std::printf("\n  %-9s part:", ""); for (int c = 0; c < n; ++c) std::printf(" %.12g", lib.a[a].v[c]); } }
             std::printf("\n");
         }
     }
@@ -504,7 +513,13 @@ static std::vector<Finding> judge(int g, long maskarg, const std::vector<Op>& op
     if (ref.illegal) {
         if (count) {
             if (lib.threw) R->count("illegal_rejected_by_library");
-            else { R->count("illegal_but_accepted_by_library"); R->count("illegal_accepted: " + ref.why); if (std::getenv("C12_DEBUG")) std::fprintf(stderr, "ILLEGAL-ACCEPTED %s | %s| %s\n", cs.c_str(), ps.c_str(), ref.why.c_str()); if (R->notes["sample_illegal_accepted"].size() < 600) R->notes["sample_illegal_accepted"] += "[" + cs + ": " + ps + "-> " + ref.why + "] "; }
+            else {
+                // accepted although illegal for the reference: expected downstream of the top-layer-default handling of defaulted
+                // entries (a `n*` entry in the top layer of PORO/PERMX/PERMY becomes a value); anything else is singled out
+                bool topdef = false;
+                for (int p : prog) if ((ops[p].kind == K_ASSIGN || ops[p].kind == K_BOXED) && meta[ops[p].arr].top) for (auto& e : ops[p].data) topdef = topdef || e.def;
+                if (!topdef) { R->count("illegal_but_accepted_unexplained"); if (R->notes["sample_illegal_accepted_unexplained"].size() < 600) R->notes["sample_illegal_accepted_unexplained"] += "[" + cs + ": " + ps + "-> " + ref.why + "] "; }
+                R->count("illegal_but_accepted_by_library"); R->count("illegal_accepted: " + ref.why); if (std::getenv("C12_DEBUG")) std::fprintf(stderr, "ILLEGAL-ACCEPTED %s | %s| %s\n", cs.c_str(), ps.c_str(), ref.why.c_str()); if (R->notes["sample_illegal_accepted"].size() < 600) R->notes["sample_illegal_accepted"] += "[" + cs + ": " + ps + "-> " + ref.why + "] "; }
         }
         return out;
     }
@@ -513,7 +528,7 @@ static std::vector<Finding> judge(int g, long maskarg, const std::vector<Op>& op
         out.push_back({lastcls, "throws-on-legal", "library rejects a program the reference deems legal (" + first_line(lib.err) + ")"});
         return out;
     }
-    if (count) { if (ref.strict_illegal) R->count("global_storage_rule_not_enforced_by_library"); R->count("legal_compared"); }
+    if (count) { if (ref.strict_illegal) R->count("global_storage_rule_not_enforced_by_library"); R->count("legal_compared"); if (std::getenv("C12_OPSTATS")) for (int p : prog) R->count("legal_with:" + ops[p].name); }
     if (lib.nactive != popcnt(mask)) { out.push_back({"harness", "activity-changed", "number of active cells " + std::to_string(lib.nactive) + " != ACTNUM " + std::to_string(popcnt(mask))}); return out; }
     // ---- oracle 1: reference
     uint64_t h = 1469598103934665603ull;
@@ -521,29 +536,35 @@ static std::vector<Finding> judge(int g, long maskarg, const std::vector<Op>& op
         const RArr& A = ref.arr[a]; const LibArr& L = lib.a[a];
         const std::string ty = meta[a].is_int ? "int" : "double";
         if (!A.exists) continue;
+        if (A.last_op < 0 && a != PORO && a != NTG) continue;      // only referenced (e.g. as region set), never written: nothing to compare
         const bool rvalid = ref.valid_active(a);
-        if (!rvalid && !L.has && L.partial) {      // both agree the array is incomplete: compare it cell by cell
-            for (int c = 0; c < n; ++c) {
+        const std::string c0 = cls_of(a), ckw = c0.substr(0, c0.find('-'));   // keyword without the OPERATE function
+        const std::string usfx = ops[prog[std::max(0, A.last_op)]].unit_nonlinear ? ":unit" : "";
+        bool bad = false;
+        if (L.fd) {          // cell by cell (double arrays): has-value status, value, all-cells storage
+            for (int c = 0; c < n && !bad; ++c) {
                 if (!ref.act(c)) continue;
                 const bool rd = A.s[c] != UNDEF;
-                if (rd != (bool)L.def[c]) { out.push_back({cls_of(a), std::string("ref:double:") + (rd ? "partial-missing" : "partial-extra-defined"), std::string(meta[a].name) + " cell " + std::to_string(c) + (rd ? " has a value in the reference but none in the library" : " has a value in the library (" + vf::fmt17(L.v[c]) + ") but none in the reference")}); break; }
-                if (rd && L.has_global && (!L.gdef[c] || !close_rel(L.gv[c], A.v[c]))) { out.push_back({cls_of(a), "ref:double:global", std::string(meta[a].name) + " (not yet fully defined) cell " + std::to_string(c) + ": all-cells storage holds " + (L.gdef[c] ? vf::fmt17(L.gv[c]) : std::string("no value")) + " but the active-cell array and the reference give " + vf::fmt17(A.v[c])}); break; }
-                if (rd) { h = vf::fnv(&L.v[c], 8, h); if (!close_rel(L.v[c], A.v[c])) { out.push_back({cls_of(a), std::string("ref:double:partial-value") + (ops[prog[std::max(0, A.last_op)]].unit_nonlinear ? ":unit" : ""), std::string(meta[a].name) + " (not yet fully defined) cell " + std::to_string(c) + " = " + vf::fmt17(L.v[c]) + ", reference " + vf::fmt17(A.v[c])}); break; } }
+                if (rd != (bool)L.def[c]) { bad = true; out.push_back({c0, std::string("ref:double:") + (rd ? "cell-missing" : "cell-extra-defined"), std::string(meta[a].name) + " cell " + std::to_string(c) + (rd ? " has a value in the reference (" + vf::fmt17(A.v[c]) + ") but none in the library" : " has a value in the library (" + vf::fmt17(L.v[c]) + ") but none in the reference")}); break; }
+                if (!rd) continue;
+                h = vf::fnv(&L.v[c], 8, h);
+                if (!close_rel(L.v[c], A.v[c])) { bad = true; out.push_back({c0, "ref:double" + usfx, std::string(meta[a].name) + " cell " + std::to_string(c) + " = " + vf::fmt17(L.v[c]) + ", reference " + vf::fmt17(A.v[c]) + (L.has ? "" : " (array not yet fully defined)")}); break; }
+                if (L.store && (!L.sdef[c] || !close_rel(L.sv[c], L.v[c]))) { bad = true; out.push_back({ckw, "ref:double:global", std::string(meta[a].name) + " active cell " + std::to_string(c) + ": the all-cells storage behind get_global_double holds " + (L.sdef[c] ? vf::fmt17(L.sv[c]) : "no value (data " + vf::fmt17(L.sv[c]) + ")") + " but the active-cell array and the reference give " + vf::fmt17(L.v[c])}); break; }
             }
-            continue;
+            if (bad) continue;
         }
         if (rvalid != L.has) {
-            out.push_back({cls_of(a), "ref:" + ty + (rvalid ? ":missing" : ":extra-defined"), std::string(meta[a].name) + (rvalid ? " is fully defined on the active cells by the reference but not available from the library" : " is available from the library although the reference leaves active cells undefined")});
+            out.push_back({c0, "ref:" + ty + (rvalid ? ":missing" : ":extra-defined"), std::string(meta[a].name) + (rvalid ? " is fully defined on the active cells by the reference but not available from the library" : " is available from the library although the reference leaves active cells undefined")});
             continue;
         }
         if (!rvalid) continue;
         for (int c = 0; c < n; ++c) {
             if (!ref.act(c)) continue;
-            h = vf::fnv(&L.v[c], 8, h);
+            if (!L.fd) h = vf::fnv(&L.v[c], 8, h);
             const bool ok1 = meta[a].is_int ? (L.v[c] == A.v[c]) : close_rel(L.v[c], A.v[c]);
-            const bool ok2 = meta[a].is_int ? (L.gv[c] == A.v[c]) : close_rel(L.gv[c], A.v[c]);
-            if (!ok1) { out.push_back({cls_of(a), "ref:" + ty + (ops[prog[std::max(0, A.last_op)]].unit_nonlinear ? ":unit" : ""), "get_" + ty + "(" + meta[a].name + ") cell " + std::to_string(c) + " = " + vf::fmt17(L.v[c]) + ", reference " + vf::fmt17(A.v[c])}); break; }
-            if (!ok2) { out.push_back({cls_of(a), "ref:" + ty + ":global", "get_global_" + ty + "(" + meta[a].name + ") cell " + std::to_string(c) + " = " + vf::fmt17(L.gv[c]) + " but get_" + ty + " and the reference give " + vf::fmt17(A.v[c])}); break; }
+            const bool ok2 = meta[a].is_int ? (L.gv[c] == L.v[c]) : close_rel(L.gv[c], L.v[c]);
+            if (!ok1) { out.push_back({c0, "ref:" + ty + usfx, "get_" + ty + "(" + meta[a].name + ") cell " + std::to_string(c) + " = " + vf::fmt17(L.v[c]) + ", reference " + vf::fmt17(A.v[c])}); break; }
+            if (!ok2) { out.push_back({ckw, "ref:" + ty + ":global", "get_global_" + ty + "(" + meta[a].name + ") cell " + std::to_string(c) + " = " + vf::fmt17(L.gv[c]) + " but get_" + ty + " and the reference give " + vf::fmt17(L.v[c])}); break; }
         }
     }
     if (count) R->observe(h);
@@ -639,8 +660,7 @@ int main(int argc, char** argv) {
 
     std::vector<int> core4, core, all;
     for (int i = 0; i < (int)ops[0].size(); ++i) { all.push_back(i); if (ops[0][i].core) core.push_back(i); if (ops[0][i].core4) core4.push_back(i); }
-    std::vector<unsigned> q6[2] = {{qmask[0].begin(), qmask[0].begin() + 6}, {qmask[1].begin(), qmask[1].begin() + 6}};
-    const std::vector<unsigned> none[2];
+    std::vector<unsigned> q4[2] = {{0xF7, 0xDB, 0xA5, 0x0F}, {0x3D, 0x2D, 0x15, 0x38}};
 
     // regime: all programs of length min_len..depth over alpha (non-decreasing section order) x masks (+ the all-active run)
     struct Regime { const char* name; const std::vector<int>* alpha; int depth; const std::vector<unsigned>* masks; int min_len; bool need_extra; int only_grid; };
@@ -654,7 +674,7 @@ int main(int argc, char** argv) {
         regimes.push_back({"deep", &core, 3, qmask, 3, false, -1});
         regimes.push_back({"allmasks3", &core, 3, allmask, 3, false, 1});
         regimes.push_back({"deep4", &core4, 4, qmask, 4, false, -1});
-        regimes.push_back({"broad", &all, 3, q6, 3, true, -1});
+        regimes.push_back({"broad", &all, 3, q4, 3, true, -1});
     }
     const char* only = std::getenv("C12_ONLY"); const bool dry = std::getenv("C12_DRY") != nullptr;
     uint64_t programs = 0;
@@ -668,7 +688,7 @@ int main(int argc, char** argv) {
                 if (rg.need_extra) { bool x = false; for (int o : p) x = x || !ops[g][o].core; if (!x) return; }
                 if (!run.mine()) return;
                 if (run.timed_out()) return;
-                ++programs;
+                ++programs; run.count(std::string("programs_") + rg.name);
                 if (dry) { run.evaluations += 1 + rg.masks[g].size(); return; }
                 run_program(g, ops[g], p, rg.masks[g]);
                 if (run.samples.size() < 4 && p.size() >= 3 && (programs % 97) == 1) run.sample_str(std::string(rg.name) + " grid " + std::to_string(g) + ": " + prog_str(ops[g], p));
@@ -676,8 +696,24 @@ int main(int argc, char** argv) {
         }
     }
     run.count("programs", programs);
-    run.count("alphabet_core", run.shard == 0 ? core.size() : 0);
-    run.count("alphabet_all", run.shard == 0 ? all.size() : 0);
-    run.rule = "placeholder";
+    if (run.shard == 0) { run.count("alphabet_core4", core4.size()); run.count("alphabet_core", core.size()); run.count("alphabet_all", all.size()); }
+    {
+        std::string names[3];
+        for (int i : all) names[ops[0][i].core4 ? 0 : ops[0][i].core ? 1 : 2] += ops[0][i].name + " ";
+        run.notes["alphabet_core4"] = names[0]; run.notes["alphabet_core_adds"] = names[1]; run.notes["alphabet_broad_adds"] = names[2];
+        run.notes["quick_masks"] = "2x2x2: FE 7F EF F7 DB A5 5A 3C C3 0F F0 81; 3x2x1: 3E 1F 3D 2F 2D 15 2A 0C 33 07 38 21 (hex, bit c = cell c active, cell index i fastest)";
+    }
+    run.rule = std::string("programs = ALL sequences (deck order: GRID<=EDIT<=PROPS<=REGIONS<=SOLUTION) of field-property operations over the listed alphabets on grids 2x2x2 and 3x2x1; each program is built with the real Parser+EclipseState once without ACTNUM and once per ACTNUM pattern. ")
+        + (run.quick() ? "quick: [single] every one of the " + std::to_string(all.size()) + " operations alone x ALL ACTNUM patterns (255 + 63); [deep] all programs of length 1..3 over the " + std::to_string(core.size()) + "-operation core alphabet x 12 ACTNUM patterns per grid (single interior/corner inactive cells, pairs, checkerboards, whole layers/rows, two isolated active cells); [broad] all programs of length 2 over the full " + std::to_string(all.size()) + "-operation alphabet containing at least one non-core operation (every OPERATE function, OPERATER, region variants over MULTNUM/FLUXNUM/FIPNUM, EDIT multipliers, PROPS/REGIONS/SOLUTION arrays, defaulted n* entries) x the same 12 patterns. "
+                       : "thorough: [allmasks] all programs of length 1..2 over the full " + std::to_string(all.size()) + "-operation alphabet x ALL ACTNUM patterns (255 for 2x2x2, 63 for 3x2x1); [deep] all programs of length 3 over the " + std::to_string(core.size()) + "-operation core alphabet x 12 patterns per grid; [allmasks3] the same length-3 core programs on 3x2x1 x ALL 63 patterns; [deep4] all programs of length 4 over the pruned " + std::to_string(core4.size()) + "-operation alphabet (PERMX-centred) x 12 patterns per grid; [broad] all programs of length 3 over the full alphabet containing at least one non-core operation x 4 patterns per grid. ")
+        + "Oracles: (1) reference interpreter over global cells with per-cell UNDEF/DEFAULT/VALUE status and deck-unit semantics: get_double/get_int, get_global_* and (double arrays, also partially defined ones) per-cell value + has-value status equal the reference on every active cell (ints exact, doubles 1e-12 relative incl. mD->m2 and bar->Pa), programs legal for the reference must not be rejected; (2) all-active differential: bitwise equal values on the cells active in the masked run. Illegal programs (reference reads an undefined active cell, array length != input box, documented preconditions) are only counted. distinct = distinct vectors of library values on the active cells.";
+    run.assumptions = {
+        "reference semantics written from the keyword documentation: direct assignment fills the current input box in i-fastest order, n* entries leave the cell unchanged unless the keyword item has a default and the cell is unset; BOX persists until ENDBOX or the end of the section; a defaulted box in EQUALS/ADD/MULTIPLY/MINVALUE/MAXVALUE/COPY/OPERATE records means the input box or the box of the previous record; MINVALUE raises to a floor, MAXVALUE caps; scalars of ADD/EQUALS/MINVALUE/MAXVALUE and OPERATE parameters carry the target's unit, MULTIPLY factors do not; OPERATE functions act on deck-unit values; region keywords select cells whose region value equals the id, default region set = MULTNUM because GRIDOPTS NRMULT>0; MULTX given in EDIT multiplies the GRID value at the end of EDIT; PERMX/PERMY/PORO cells left unset by an assignment in GRID take the value given for the top-layer cell of their column in that keyword",
+        "preconditions taken over from the library's explicit error messages (programs violating them are counted as illegal, not compared): ADD/MULTIPLY/MINVALUE/MAXVALUE need a target that was mentioned before (except multipliers); COPY/COPYREG need a source that is fully defined on the active cells and copy explicitly assigned values only; OPERATE/COPY between an all-cells-storage array (PERMX/PERMY) and an active-cell-storage array is unsupported; region sets must be fully defined",
+        "all-cells storage rule: for PERMX/PERMY (stored for inactive cells too, FieldProps.hpp 'Regarding global keywords') box operations that read an INACTIVE cell without value are rejected by the library; such rejections are counted (rejected_by_global_storage_rule), not reported",
+        "base deck defines PORO>0 and NTG>0 everywhere and the alphabet keeps them positive (EclipseState deactivates cells with zero pore volume; checked: active cell count must equal the ACTNUM pattern)",
+        "violation keys name the operation class of the SHORTEST prefix of the program that already misbehaves on the same grid and ACTNUM pattern",
+        "per-cell status of partially defined double arrays and the all-cells storage are read through FieldPropsManager::get_double_field_data(kw, true) (public, auxiliary observation)",
+        "values, boxes, region ids and ACTNUM patterns outside the stated alphabets are not covered; partial box defaults (e.g. 2* 2* 2 2), TRAN*/PORV/MULTPV, satfunc end-point arrays, region operations on EDIT multipliers, PROPS operations reading REGIONS arrays and SCHEDULE-section multipliers are left out"};
     return run.finish();
 }
